@@ -203,3 +203,13 @@ m("subscription-failure-keeps-tx", ["C20"], "wallet/wallet.go",
   "		if !alreadyKnown {\n			dbErr := walletdb.Update", "		if !alreadyKnown && false {\n			dbErr := walletdb.Update")
 m("resend-children-first", ["C20", "C14"], "wtxmgr/unconfirmed.go",
   "	return DependencySort(txSet), nil", "	sorted := DependencySort(txSet)\n	for i, j := 0, len(sorted)-1; i < j; i, j = i+1, j-1 {\n		sorted[i], sorted[j] = sorted[j], sorted[i]\n	}\n	return sorted, nil")
+
+# ---------------- wallet: concurrent address issuing (C09) ----------------
+m("no-mutex-newaddress", ["C09"], "wallet/wallet.go",
+  "	w.newAddrMtx.Lock()\n	defer w.newAddrMtx.Unlock()\n\n	var (\n		addr  btcutil.Address\n		props *waddrmgr.AccountProperties\n	)\n	err = walletdb.Update(w.db, func(tx walletdb.ReadWriteTx) error {\n		addrmgrNs := tx.ReadWriteBucket(waddrmgrNamespaceKey)\n		var err error\n		addr, props, err = w.newAddress(addrmgrNs, account, scope)",
+  "	var (\n		addr  btcutil.Address\n		props *waddrmgr.AccountProperties\n	)\n	err = walletdb.Update(w.db, func(tx walletdb.ReadWriteTx) error {\n		addrmgrNs := tx.ReadWriteBucket(waddrmgrNamespaceKey)\n		var err error\n		addr, props, err = w.newAddress(addrmgrNs, account, scope)")
+m("no-mutex-txtooutputs", ["C09"], "wallet/createtx.go",
+  "	w.newAddrMtx.Lock()\n	defer w.newAddrMtx.Unlock()\n", "")
+m("no-mutex-newchangeaddress", ["C09"], "wallet/wallet.go",
+  "	w.newAddrMtx.Lock()\n	defer w.newAddrMtx.Unlock()\n\n	var addr btcutil.Address\n	err = walletdb.Update(w.db, func(tx walletdb.ReadWriteTx) error {\n		addrmgrNs := tx.ReadWriteBucket(waddrmgrNamespaceKey)\n		var err error\n		addr, err = w.newChangeAddress(addrmgrNs, account, scope)",
+  "	var addr btcutil.Address\n	err = walletdb.Update(w.db, func(tx walletdb.ReadWriteTx) error {\n		addrmgrNs := tx.ReadWriteBucket(waddrmgrNamespaceKey)\n		var err error\n		addr, err = w.newChangeAddress(addrmgrNs, account, scope)")
